@@ -34,7 +34,7 @@ VERIF = os.path.dirname(HERE)
 REPO = "/repo"
 BASE_COMMIT = "09e6783"          # the tree the anchors' line numbers refer to (before any fix: commit)
 OUT = os.path.join(VERIF, "automut")
-SCRATCH = "/dev/shm/vfw-automut"
+SCRATCH = f"/dev/shm/vfw-automut-{os.getpid()}"
 PY = "/venv/bin/python"
 
 # properties that observe a function although their anchor does not name it (callers found while building the checks)
@@ -329,6 +329,9 @@ def main():
     ap.add_argument("--ops")
     ap.add_argument("--resume", action="store_true")
     ap.add_argument("--skip-tests", action="store_true")
+    ap.add_argument("--ids", help="comma separated mutant ids (re-check of survivors after a check was strengthened)")
+    ap.add_argument("--props", help="comma separated properties to run instead of the anchored ones")
+    ap.add_argument("--survivors", action="store_true", help="re-run the mutants whose latest status is 'survived'")
     ap.add_argument("--tests-only", action="store_true", help="phase A: only decide whether the baseline suite still passes")
     ap.add_argument("--checks-only", action="store_true", help="phase B: run the property checks for mutants recorded as passes-tests")
     a = ap.parse_args()
@@ -367,7 +370,15 @@ def main():
         done = set()
         if a.resume and os.path.exists(resf):
             done = {json.loads(l)["id"] for l in open(resf)}
-        if a.checks_only:
+        if a.ids or a.survivors:
+            last = {}
+            for l in open(resf):
+                r = json.loads(l)
+                last[r["id"]] = r["status"]
+            want = set(a.ids.split(",")) if a.ids else {k for k, v in last.items() if v == "survived"}
+            sites = [dict(s_, props=(a.props.split(",") if a.props else s_["props"])) for s_ in sites if s_["id"] in want]
+            a.skip_tests = True
+        elif a.checks_only:
             last = {}
             for l in open(resf):
                 r = json.loads(l)
